@@ -31,7 +31,8 @@ Inductive endpoint :=
    sh_form_ok = false: the body carries one extra pair with a malformed escape (junk=%zz). *)
 Record shape := {
   sh_entry : entry; sh_ep : endpoint; sh_form_ok : bool; sh_basic : basic;
-  sh_key : bool; sh_client_id : bool }.
+  sh_key : bool; sh_client_id : bool;
+  sh_fault : bool    (* the first storage call of the request fails (injected error or deadline) *) }.
 
 Inductive errcode := EInvalidRequest | EInvalidClient | EUnsupportedGrantType | EServerError
                    | EUnauthorizedClient | EAccessDenied | EOther | ENoCode.   (* ENoCode: not an OAuth JSON error body *)
@@ -39,12 +40,16 @@ Inductive errcode := EInvalidRequest | EInvalidClient | EUnsupportedGrantType | 
 Inductive outcome :=
 | OResp (status : nat) (c : errcode)   (* one error response, nothing else done *)
 | OGrant                               (* every pre-check passed: the grant logic (storage) is entered and answers once *)
+| OFault                               (* a storage call failed: one error response, no storage call after it *)
 | OPanic | ODouble | OContinued.
 
 (* one step of a handler *)
 Inductive check :=
 | CPass
-| CFail (status : nat) (c : errcode) (returns : bool).
+| CFail (status : nat) (c : errcode) (returns : bool)
+| CStore (fails fatal returns : bool).
+  (* a storage call: when it fails the handler either answers benignly (not fatal: introspection's
+     {"active":false}) or writes an error and returns - or (defect) goes on to the next storage call *)
 
 Fixpoint run (cs : list check) : outcome :=
   match cs with
@@ -52,6 +57,10 @@ Fixpoint run (cs : list check) : outcome :=
   | CPass :: r => run r
   | CFail st c true :: _ => OResp st c
   | CFail _ _ false :: _ => OPanic    (* error written, then the nil request is dereferenced *)
+  | CStore false _ _ :: r => run r
+  | CStore true false _ :: _ => OGrant
+  | CStore true true true :: _ => OFault
+  | CStore true true false :: _ => OContinued   (* error written, then the next storage call / a second answer *)
   end.
 
 Definition chk (ok : bool) (st : nat) (c : errcode) : check := if ok then CPass else CFail st c true.
@@ -126,23 +135,61 @@ Section Handlers.
   Definition on_token_endpoint (e : endpoint) : bool :=
     is_token_grant e || match e with ENoGrant | EUnknownGrant => true | _ => false end.
 
-  Definition checks (s : shape) : list check :=
+  Definition prechecks (s : shape) : list check :=
     match sh_entry s with
     | ViaProvider => legacy_fn s (negb (on_token_endpoint (sh_ep s)))
     | Direct => legacy_fn s true
     | ViaLegacy => legacy_server s
     end.
 
+  (* then the first storage call (client lookup / authentication / code, key, device state lookup /
+     TerminateSession): its failure is answered with an error and the handler returns *)
+  Definition checks (s : shape) : list check := prechecks s ++ [CStore (sh_fault s) true true].
+
   Definition handler (s : shape) : outcome := run (checks s).
 End Handlers.
 
 Definition returns (c : check) : bool :=
-  match c with CPass => true | CFail _ _ r => r end.
+  match c with CPass => true | CFail _ _ r => r | CStore _ _ r => r end.
 Definition passes (c : check) : bool :=
-  match c with CPass => true | _ => false end.
+  match c with CPass => true | CStore f _ _ => negb f | _ => false end.
 
 Definition single (o : outcome) : bool :=
-  match o with OResp _ _ | OGrant => true | _ => false end.
+  match o with OResp _ _ | OGrant | OFault => true | _ => false end.
+
+(* ---- storage-error exits of valid, authenticated requests (revocation, introspection, userinfo) ----
+   The request is well-formed and carries live credentials / tokens; the x_fault-th storage call
+   (1-based, 0 = none) fails. *)
+Inductive xep :=
+| XRevokeRT      (* POST /revoke, live refresh token, token_type_hint absent or refresh_token *)
+| XRevokeAT      (* POST /revoke, live opaque access token, token_type_hint=access_token *)
+| XIntrospect    (* POST /oauth/introspect, live opaque access token, Basic credentials *)
+| XUserinfo.     (* GET /userinfo, live opaque bearer token *)
+
+Record xshape := { x_entry : entry; x_ep : xep; x_fault : nat }.
+
+(* storage calls in order, with "failure is fatal"; [ret_rti]: Revoke returns after answering a
+   GetRefreshTokenInfo failure that is not ErrInvalidRefreshToken *)
+Definition xsteps (ret_rti : bool) (x : xshape) : list (bool * bool) :=
+  let auth := match x_entry x with
+              | ViaLegacy => [(true, true); (true, true)]   (* VerifyClient: GetClientByClientID, AuthorizeClientIDSecret *)
+              | _ => [(true, true)]                          (* AuthorizeClientIDSecret *)
+              end in
+  match x_ep x with
+  | XRevokeRT => auth ++ [(true, ret_rti); (true, true)]    (* GetRefreshTokenInfo, RevokeToken *)
+  | XRevokeAT => auth ++ [(true, true)]                     (* RevokeToken *)
+  | XIntrospect => [(true, true); (false, true)]            (* AuthorizeClientIDSecret, SetIntrospectionFromToken *)
+  | XUserinfo => [(true, true)]                             (* SetUserinfoFromToken *)
+  end.
+
+Fixpoint xchecks_from (i k : nat) (l : list (bool * bool)) : list check :=
+  match l with
+  | [] => []
+  | (fatal, r) :: t => CStore (Nat.eqb k i) fatal r :: xchecks_from (S i) k t
+  end.
+
+Definition xchecks (ret_rti : bool) (x : xshape) : list check := xchecks_from 1 (x_fault x) (xsteps ret_rti x).
+Definition xhandler (ret_rti : bool) (x : xshape) : outcome := run (xchecks ret_rti x).
 
 (* the driver calls handler functions directly only for the six token grants *)
 Definition shape_wf (s : shape) : bool :=
